@@ -68,6 +68,8 @@ type ScriptedSubscriber struct {
 	closing    chan struct{}
 	closed     bool
 	wg         sync.WaitGroup
+	// CloseErrAt: Close call number (1-based) that returns an error (the subscriber is closed all the same)
+	CloseErrAt int
 	// CloseWaits: Close (and the end of the subscription) waits until the message in flight has been settled
 	CloseWaits bool
 	// SubscribeErrAt: Subscribe call number (1-based) that fails
@@ -226,8 +228,14 @@ func (s *ScriptedSubscriber) Close() error {
 		close(s.closing)
 	}
 	s.wg.Wait()
+	if s.CloseErrAt == s.Closes {
+		return ErrScriptedClose
+	}
 	return nil
 }
+
+// ErrScriptedClose is what a scripted failing Close returns.
+var ErrScriptedClose = errors.New("scripted close error")
 
 // DeliveriesOf returns the deliveries of script entry idx on topic in order.
 func (s *ScriptedSubscriber) DeliveriesOf(topic string, idx int) []*Delivery {
